@@ -140,7 +140,7 @@ SPEC = {
     "post": _post,
     "min_cases": {"quick": 120000, "thorough": 3000000},
     "trusted_base": [
-        "doc_* functions of coq/Model/Derive.v are the attribute documentation of scylla-macros/src/lib.rs transcribed by hand",
+        "doc_* functions of coq/Model/Derive.v are the attribute documentation of scylla-macros/src/lib.rs transcribed by hand; for enforce_order with names checked the strict type_check / serialization tables are proved equivalent to the inductive relation ord_bind of coq/Model/DeriveSpec.v",
         "the descriptor text registered next to each struct of harness/src/bin/c16.rs (re-derived from the struct's attribute text on every run, kind XD; a struct whose two texts differ gets no cases)",
         "the 8 structs with nested derived-struct fields (kind NV) have no model: round-trip law only, bytes and rejections unchecked",
         "field value codec abstracted to cells: i32 / String / Option<i32> / Option<String> against int / text / ascii / bigint only",
